@@ -52,7 +52,14 @@ model declines, "na"), "bigroot" (the library first grows the root to 2 .. 3 clu
 library's previous pages (`imgq`); the root chain read from the device's FAT by this module must be the model's root32_chain; after
 the call (own mount .. unmount bracket) outcome and EVERY non-zero page are compared, and directly on the device every byte outside
 the clusters of the root chain must be unchanged - including the status byte at offset 65 (set by the first write, cleared by
-unmount) and the FS-info sector (not written: nothing was allocated or freed); nothing is excluded."""
+unmount) and the FS-info sector (not written: nothing was allocated or freed); nothing is excluded.
+GROWTH OF THE FAT32 ROOT: every create is also run through Vol32Root.vol32_root_create_grow (model r32grow: the FS-info latch read from
+the image by VolFsInfo.vol32_mount, the create with allocation + zero fill, then the FS-info write-back of unmount applied in the glue by
+VolFsInfo.vol32_flush_fs_info).  A create the no-growth model declines is compared through it: outcome, every non-zero page (so also
+the FS-info sector as the library's unmount rewrote it), the root chain afterwards (device FAT vs model), the FS-info free / next
+words vs the model's latch; directly on the device: only the clusters of the new root chain, the FAT entries (every copy) of the old
+last and the new clusters and the two FS-info hint words may change.  A create that fits must get the same answer from both models.
+Renames that make the root grow, removes / renames of entries owning clusters or of directories stay "na" (counted)."""
 import hashlib
 import vlib, namelib, fatimg
 from vlib import hexs
@@ -938,7 +945,8 @@ def r32_slots(name):
 def gen_root32_history(rng, nops, kind):
     """kind: "plain" | "owners" (the library first makes a file with data and a sub-directory: entries the model declines to remove)
     | "bigroot" (the library first grows the root over a second cluster, allocated AFTER a data file, and leaves holes) | "fill"
-    (mostly creates of distinct long names: the root must grow, which this model declines).  -> prelude lines, live names, ops"""
+    (mostly creates of distinct long names: the root must grow, which the no-growth model declines and vol32_root_create_grow covers)
+    | "fill2" (fill after a fixed prefix aimed at creates that need two new 512-byte clusters at once).  -> prelude lines, live names, ops"""
     prelude, live = [], []
     if kind in ("owners", "bigroot"):
         prelude += ["create_file 0 %s 5" % hexs("data.bin"), "write_pat 5 %d 7" % rng.choice([1, 512, 1500, 4000]), "drop_file 5"]
@@ -955,17 +963,26 @@ def gen_root32_history(rng, nops, kind):
         live += [f for f in fillers if f not in gone]
     ops = []
     serial = 0
+    if kind == "fill2":
+        # aimed at a create that needs TWO new 512-byte clusters at once: 5 x 3 slots, then 21 slots with 1 slot left (20 more: 2 clusters),
+        # 10 slots, then 21 slots with 2 slots left
+        for n in (14, 15, 16, 17, 18, 255, 110, 254):
+            serial += 1
+            nm = ("two %02d " % serial) + "t" * (n - 7)
+            ops.append(("create", nm)); live.append(nm)
+        kind = "fill"
+        nops = max(0, nops - len(ops))
     for _ in range(nops):
         r = rng.below(100)
         nm = rng.choice(ROOT32_NAMES) if rng.chance(93, 100) else rng.choice(BAD)
-        if kind == "fill" and rng.chance(1, 2):
+        if kind == "fill" and rng.chance(2, 3):
             serial += 1
-            nm = ("fill %02d " % serial) + "f" * rng.choice([1, 8, 20, 33, 46, 58])
+            nm = ("fill %02d " % serial) + "f" * rng.choice([1, 8, 20, 33, 46, 57, 58, 100, 150, 200, 247])     # up to 21 slots: two 512-byte clusters at once
         if r < 5:
             ops.append(("clock", 1980 + rng.below(128), 1 + rng.below(12), 1 + rng.below(28), rng.below(24), rng.below(60), rng.below(60), rng.below(1000)))
-        elif r < (70 if kind == "fill" else 42) or not live:
+        elif r < (76 if kind == "fill" else 42) or not live:
             ops.append(("create", nm)); live.append(nm)
-        elif r < (80 if kind == "fill" else 66):
+        elif r < (84 if kind == "fill" else 66):
             t = rng.choice(live) if rng.chance(85, 100) else nm
             if rng.chance(30, 100):
                 t = t.upper() if rng.chance(1, 2) else t.lower()
@@ -1023,13 +1040,13 @@ def root32_chain_py(pages, fill, g):
 def run_root32_stream(rep, tier, seed):
     rng = vlib.Rng(seed * 32452843 + 13)
     quick = tier == "quick"
-    kinds_plan = ["plain", "fill", "bigroot", "owners", "bigroot", "fill"] if quick else ["plain", "fill", "bigroot", "owners"] * 6
+    kinds_plan = ["plain", "fill2", "bigroot", "owners", "bigroot", "fill"] if quick else ["plain", "fill2", "bigroot", "owners", "plain", "fill", "bigroot", "owners"] * 3
     nops = 16 if quick else 24
     nconf = 2 if quick else len(ROOT32_CONFS)
     jobs = []
     for i, kind in enumerate(kinds_plan):
         conf = ROOT32_CONFS[0] if quick and i < 4 else ROOT32_CONFS[1] if quick else ROOT32_CONFS[(i // 4 + i) % nconf]
-        prelude, ops = gen_root32_history(rng, nops, kind)
+        prelude, ops = gen_root32_history(rng, nops * 2 if kind in ("fill", "fill2") and conf is ROOT32_CONFS[0] else nops, kind)
         lines, pf, pp, marks, li = build_root32_script(conf, prelude, ops)
         jobs.append((conf, kind, ops, lines, pf, pp, marks, li))
     results = vlib.run_scripts([j[3] for j in jobs])
@@ -1066,18 +1083,23 @@ def run_root32_stream(rep, tier, seed):
                 mlines.append("r32remove %s" % hexs(op[1]))
             else:
                 mlines.append("r32rename %s %s" % (hexs(op[1]), hexs(op[2])))
-            plan.append((ji, oi, prev))
+            kop = len(plan)           # index of the op's answer in the model output
+            if op[0] == "create":
+                # the same create INCLUDING growth, from the same re-based image, with the FS-info write-back of unmount
+                plan.append(None)
+                mlines.append("r32grow %s %d %d %d %d %d %d %d" % ((hexs(op[1]),) + tuple(clock)))
+            plan.append((ji, oi, prev, kop))
             prev = pi
     out = vlib.model_run("cvol", "\n".join(mlines) + "\n")[1:]
     assert len(out) == len(plan), (len(out), len(plan))
-    ncmp = nviol = nna = nframe = npages = nchain_ok = nclean = 0
-    kinds, slots, chain_lens, hist_kinds, na_by_op = {}, {}, {}, {}, {}
+    ncmp = nviol = nna = nframe = npages = nchain_ok = nclean = ngrow = ngrow_frame = nboth = nfsi = nfsw = 0
+    kinds, slots, chain_lens, hist_kinds, na_by_op, grow_kinds, grow_chain_after, grow_added, grow_slots = {}, {}, {}, {}, {}, {}, {}, {}, {}
     def bump(d, k):
         d[k] = d.get(k, 0) + 1
     for k, pl in enumerate(plan):
         if pl is None:
             continue
-        ji, oi, prev = pl
+        ji, oi, prev, kop = pl
         conf, kind, ops, lines, pf, pp, marks, li = jobs[ji]
         res = results[ji]
         fill = conf[3]
@@ -1086,7 +1108,8 @@ def run_root32_stream(rep, tier, seed):
         ri, pi = marks[oi]
         ir = res[ri]
         rep.count()
-        chain_line, mo = out[k - 1].split(" "), out[k].split(" ")
+        chain_line, mo = out[kop - 1].split(" "), out[kop].split(" ")
+        mg = out[k].split(" ") if k != kop else None          # the r32grow answer of a create
         itag = "ok" if ir.kind == "ok" else (ir.kind + " " + ir.payload.split()[0] if ir.payload else ir.kind)
         before, after = pages_of(res[prev]), pages_of(res[pi])
         chain = root32_chain_py(before, fill, g)
@@ -1117,6 +1140,59 @@ def run_root32_stream(rep, tier, seed):
                 break
         if dev_bytes(after, fill, g.status_off, 1)[0] & 3 == 0:
             nclean += 1
+        if mo[0] == "na" and mg is not None and mg[0] not in ("na", "nomount"):
+            # ---- a create the no-growth model declines: compared through vol32_root_create_grow (+ the FS-info write-back of unmount)
+            ngrow += 1
+            gtag = "ok" if mg[0] in ("ok", "exists") else ("err " + mg[1]) if mg[0] == "err" else mg[0]
+            bump(grow_kinds, "create " + (mg[0] if mg[0] != "err" else gtag))
+            gchain = [int(x) for t in mg if t.startswith("chain=") and len(t) > 6 for x in t[6:].split(",")]
+            gfi = [t[3:].split(",") for t in mg if t.startswith("fi=")]
+            chain_after = root32_chain_py(after, fill, g)
+            bump(grow_chain_after, len(chain_after) if chain_after else -1); bump(grow_added, (len(chain_after) - len(chain)) if chain_after else -1)
+            bump(grow_slots, r32_slots(op[1]))
+            fso = int.from_bytes(bytes.fromhex(before[0])[48:50], "little") * g.bps
+            words = [int.from_bytes(dev_bytes(after, fill, fso + x, 4), "little") for x in (488, 492)]
+            fi_ok = bool(gfi) and len(gfi[0]) == 3 and [("-" if w == 0xFFFFFFFF else str(w)) for w in words] == gfi[0][:2]
+            nfsi += 1 if fi_ok else 0
+            nfsw += 1 if dev_bytes(before, fill, fso + 488, 8) != dev_bytes(after, fill, fso + 488, 8) else 0
+            # directly on the device: a growing create may change only the clusters of the root chain afterwards, the FAT entries (every
+            # copy) of the old last cluster and of the new clusters, and the two hint words of the FS-info sector
+            allowed = [(g.cluster_off(c), g.cluster_size) for c in (chain_after or chain)]
+            for c in [chain[-1]] + [c for c in (chain_after or []) if c not in chain]:
+                allowed += [(g.fat_off + f * g.spf * g.bps + 4 * c, 4) for f in range(g.fats)]
+            allowed.append((fso + 488, 8))
+            gbad = None
+            for o in sorted(set(before) | set(after)):
+                a, b = before.get(o, blank), after.get(o, blank)
+                if a == b:
+                    continue
+                for i in range(4096):
+                    if a[2 * i:2 * i + 2] != b[2 * i:2 * i + 2] and not any(x0 <= o + i < x0 + n for x0, n in allowed):
+                        gbad = o + i
+                        break
+                if gbad is not None:
+                    break
+            if gbad is not None or chain_after is None or chain_after[:len(chain)] != chain:
+                ngrow_frame += 1
+                rep.violation("[cvol-root32] %s: create %r growing the root directory of a FAT32 volume (root chain %s -> %s) changed device byte %s, "
+                              "which lies neither in a cluster of the root chain, nor in the FAT entries of the old last / the new clusters, nor in "
+                              "the hint words of the FS-info sector (or the old chain is not a prefix of the new one)"
+                              % (conf[0], op[1:], chain, chain_after, gbad), {"script": lines[:pi + 1]})
+            lib = md5s(after)
+            mod = parse_digest(mg[1:])
+            npages += len(lib)
+            if gtag != itag or lib != mod or gchain != chain_after or not fi_ok:
+                nviol += 1
+                diff = sorted(o for o in set(lib) | set(mod) if lib.get(o) != mod.get(o))
+                if nviol <= 3:
+                    rep.violation("[cvol-root32] %s: model (vol32_root_create_grow + FS-info write-back) and implementation disagree on create %r growing the "
+                                  "root of a FAT32 volume: outcome model %s / library %s; root chain before %s, after: model %s / device %s; FS-info "
+                                  "free,next: model %s / device %s; %d device page(s) differ%s"
+                                  % (conf[0], op[1:], gtag, itag, chain, gchain, chain_after, gfi, words, len(diff), (" (first at offset %d)" % diff[0]) if diff else ""),
+                                  {"theorem_or_correspondence": CORR_ROOT32, "script": lines[:pi + 1]}, nofail=True)
+                continue
+            rep.distinct(("cvol-root32-grow", conf[0], op[1:], tuple(chain_after), lib.get(lo[0] - lo[0] % 4096)))
+            continue
         if mo[0] == "na":
             nna += 1
             bump(kinds, R32_NA); bump(na_by_op, "%s -> library %s%s" % (op[0], itag, ", root chain grew" if root32_chain_py(after, fill, g) != chain else ""))
@@ -1134,6 +1210,18 @@ def run_root32_stream(rep, tier, seed):
         lib = md5s(after)
         mod = parse_digest(mo[1:])
         npages += len(lib)
+        if mg is not None:
+            # a create inside the slots the root has: vol32_root_create_grow (clean latch, so no FS-info write) must say the same
+            nboth += 1
+            gtag = "ok" if mg[0] in ("ok", "exists") else ("err " + mg[1]) if mg[0] == "err" else mg[0]
+            gchain = [int(x) for t in mg if t.startswith("chain=") and len(t) > 6 for x in t[6:].split(",")]
+            if gtag != mtag or parse_digest(mg[1:]) != mod or gchain != chain:
+                nviol += 1
+                if nviol <= 3:
+                    rep.violation("[cvol-root32] %s: the models vol32_root_create (%s) and vol32_root_create_grow (%s, chain %s) disagree on a create %r "
+                                  "that fits the root chain %s" % (conf[0], mtag, gtag, gchain, op[1:], chain),
+                                  {"theorem_or_correspondence": CORR_ROOT32, "script": lines[:pi + 1]}, nofail=True)
+                continue
         if mtag != itag or lib != mod:
             nviol += 1
             diff = sorted(o for o in set(lib) | set(mod) if lib.get(o) != mod.get(o))
@@ -1160,8 +1248,16 @@ def run_root32_stream(rep, tier, seed):
         "root_chain_length_before_op": chain_lens, "root_chain_device_fat_equals_model_decoder": nchain_ok,
         "status_byte_clean_after_bracket": nclean, "device_pages_compared": npages, "most_pages_shipped_per_call": max_pages,
         "duplicate_long_names_in_final_listing": ndup,
+        "growing_creates_compared_whole_device": ngrow, "growing_create_outcomes": grow_kinds, "growing_create_frame_failures_on_device": ngrow_frame,
+        "root_chain_length_after_growing_create": grow_chain_after, "clusters_added_by_growing_create": grow_added,
+        "growing_creates_by_slots_needed": grow_slots, "fsinfo_words_on_device_equal_model_latch": nfsi, "fsinfo_words_rewritten_by_the_library_at_unmount": nfsw,
+        "non_growing_creates_also_through_create_grow": nboth,
+        "growth": "a create the no-growth model declines is compared through Vol32Root.vol32_root_create_grow (model r32grow): latch read from the image "
+                  "by VolFsInfo.vol32_mount, FS-info sector written back by VolFsInfo.vol32_flush_fs_info in the glue (what unmount does), then outcome, "
+                  "EVERY non-zero page, the root chain afterwards (device FAT vs model) and the FS-info free / next words (device vs model latch); "
+                  "NotEnoughSpace is not reachable on these volumes",
         "excluded_from_comparison": "nothing in a compared call: all non-zero 4096-byte pages of the device (boot sector with the status byte at 65, "
                                     "FS-info sector, backup boot, both FAT copies, every data cluster) are compared and framed; the model is re-based on the "
                                     "library's own pages before EVERY call, so the FS-info sector / status byte as left by earlier brackets (growth, prelude) are "
-                                    "inputs, not predictions; calls the model declines (na) are only counted"}
+                                    "inputs, not predictions; calls the models decline (na: remove / rename of an entry owning clusters or of a directory) are only counted"}
     return nviol
